@@ -41,7 +41,7 @@ type op struct {
 
 func (o op) token() string {
 	switch o.kind {
-	case 'x', 'y':
+	case 'x', 'y', 'm', 'e':
 		return string(o.kind) + o.chain.Token()
 	case 'q':
 		return "q" + o.chain.Token() + "|" + o.chain2.Token()
@@ -50,15 +50,18 @@ func (o op) token() string {
 }
 
 type tcase struct {
-	kind  byte
-	sess  aro.Sess
-	chain aro.Chain
-	ops   []op
+	kind   byte
+	sess   aro.Sess
+	chain  aro.Chain
+	chain2 aro.Chain // K:F: the export chain (chain = import chain)
+	ops    []op
 }
 
 func (c tcase) input() string {
 	t := []string{"K:" + string(c.kind)}
-	if c.kind != 'Q' {
+	if c.kind == 'F' {
+		t = append(t, c.sess.Token(), "C"+c.chain.Token()+"|"+c.chain2.Token())
+	} else if c.kind != 'Q' {
 		t = append(t, c.sess.Token(), "C"+c.chain.Token())
 	}
 	for _, o := range c.ops {
@@ -83,15 +86,21 @@ func parseCase(in string) (tcase, error) {
 		if c.sess, err = aro.ParseSess(rest[0]); err != nil {
 			return c, err
 		}
-		if c.chain, err = aro.ParseChain(rest[1][1:]); err != nil {
+		cs := strings.SplitN(rest[1][1:], "|", 2)
+		if c.chain, err = aro.ParseChain(cs[0]); err != nil {
 			return c, err
+		}
+		if len(cs) == 2 {
+			if c.chain2, err = aro.ParseChain(cs[1]); err != nil {
+				return c, err
+			}
 		}
 		rest = rest[2:]
 	}
 	for _, t := range rest {
 		o := op{kind: t[0]}
 		switch o.kind {
-		case 'x', 'y':
+		case 'x', 'y', 'm', 'e':
 			if o.chain, err = aro.ParseChain(t[1:]); err != nil {
 				return c, err
 			}
@@ -560,6 +569,8 @@ func main() {
 					obs, v, nt = runExport(c)
 				case 'I':
 					obs, v, nt = runImport(c)
+				case 'F':
+					obs, v, nt = runFamily(c)
 				default:
 					obs, v, nt = runEqual(c)
 				}
@@ -602,11 +613,13 @@ func main() {
 		rng := hx.NewRNG(cfg.Seed)
 		for i := 0; i < cfg.N; i++ {
 			r := rng.Fork(uint64(i))
-			switch i % 5 {
+			switch i % 6 {
 			case 0, 1:
 				do(fmt.Sprintf("g%d", i), genExport(r, tr))
-			case 2, 3:
+			case 2:
 				do(fmt.Sprintf("g%d", i), genImport(r, tr))
+			case 3, 4:
+				do(fmt.Sprintf("g%d", i), genFamily(r, tr))
 			default:
 				do(fmt.Sprintf("g%d", i), genEqual(r, tr))
 			}
